@@ -48,7 +48,16 @@ def check_item(it):
             if 'error' in r:
                 e = r['error']
                 viol.append(dict(goal=f'E({m})', n=None, observed=f"{e['error']}: {e['msg'][:100]} @ {e.get('where', [''])[-1]}", expected='a closed form'))
+            elif r.get('classified_solvable') is False and it['name'] in EFFECTIVE:
+                # the goal HAS a closed form, yet the effectiveness classification says it has none: `--solvability_check` would refuse it
+                viol.append(dict(goal=f'E({m}) classification', n=None, observed='classified not effective/solvable (refused under --solvability_check)', expected='classified solvable: a closed form exists'))
     return dict(status='violation' if viol else 'ok', checked=checked, violations=viol[:3], nontrivial=True)
+
+
+# programs whose non-linear dependencies are acyclic by construction (the README's own example shape): the effectiveness classification used by
+# --solvability_check must accept them.  (For other programs the classification is only a sufficient condition: a goal can have a closed form
+# although it is classified defective, e.g. through finite variables -- that is not a violation.)
+EFFECTIVE = {'nonlinear_chain'}
 
 
 def key_of(it, v):
